@@ -32,7 +32,8 @@ Inductive builtin_kind : Set := NotBuiltin | BEval | BSuper | BGlobals | BLocals
 Inductive kwargs_kind : Set := KwNone | KwEmpty | KwNonEmpty.
 (* what f is, as far as the target_entity/effective_args block can tell *)
 Inductive callable_kind : Set :=
-  | KBoundMethod        (* inspect.ismethod(f): instance-bound or class-bound (classmethod) *)
+  | KBoundMethod        (* inspect.ismethod(f): instance-bound or class-bound (classmethod), truthy receiver *)
+  | KBoundMethodFalsy   (* the same, but bool(f.__self__) is False (empty container-like receiver, __bool__ ...) *)
   | KFunction           (* inspect.isfunction(f), no __self__ attribute (def, lambda, staticmethod, unbound) *)
   | KFunctionSelfAttr   (* a plain function object that carries a user-set attribute __self__ *)
   | KCallableObj        (* instance whose type defines __call__ as an ordinary function *)
@@ -86,9 +87,10 @@ Definition atoms_of (s : situation) : valuation := fun a =>
   | AUserRequested => s_user_requested s
   | AAllowlisted => s_allowlisted s
   | AInternalConvert => s_internal s
-  | AIsMethod => match s_kind s with KBoundMethod => true | _ => false end
+  | AIsMethod => match s_kind s with KBoundMethod | KBoundMethodFalsy => true | _ => false end
   | AIsFunction => match s_kind s with KFunction | KFunctionSelfAttr => true | _ => false end
-  | ASelfNotNone => match s_kind s with KBoundMethod | KFunctionSelfAttr => true | _ => false end
+  | ASelfNotNone => match s_kind s with KBoundMethod | KBoundMethodFalsy | KFunctionSelfAttr => true | _ => false end
+  | ASelfTruthy => match s_kind s with KBoundMethod | KFunctionSelfAttr => true | _ => false end
   | AHasClass => true
   | AClassHasCall => match s_kind s with KNoCall => false | _ => true end
   | ATargetHasCode => match s_code s with NoCode => false | _ => true end
